@@ -7,3 +7,4 @@ import GPy.C19.Props
 import GPy.C03.Props
 import GPy.C20.Props
 import GPy.C06.Props
+import GPy.C01.Props
